@@ -29,6 +29,10 @@ CAT = [
  ("c13_no_uint64_check", "v2/limit/rate.go", "	if !quotient.IsUint64() {\n		return 0, ErrConvertedQuantityUnrepresentable\n	}\n", "", ["C13"], "caught"),
  ("x_feedback_limit_divider_5", V2, "	defaultFeedbackLimitDivider = 10", "	defaultFeedbackLimitDivider = 5", ["C01", "C07"], "silent"),
  ("x_idle_delay_1us", V2, "	defaultIdleDelay            = 1 * time.Nanosecond", "	defaultIdleDelay            = 1 * time.Microsecond", ["C01", "C06"], "silent"),
+ ("x_interrupt_timeout_1us", V2, "	defaultInterruptTimeout     = 1 * time.Nanosecond", "	defaultInterruptTimeout     = 1 * time.Microsecond", ["C06", "C02"], "silent"),
+ ("x_capacity_divider_5", "v2/priority/internal/common/consts.go", "	DefaultCapacityDivider = 10", "	DefaultCapacityDivider = 1", ["C01", "C07"], "silent"),
+ ("x_close_order_swapped", V2, "	defer close(dsc.output)\n	defer close(dsc.feedback)", "	defer close(dsc.feedback)\n	defer close(dsc.output)", ["C07", "C19"], "silent"),
+ ("x_error_wrapped", "v2/priority/assist.go", "	if after-before != dividend {\n		return ErrDividerBad\n	}", "	if after-before != dividend {\n		return errors.Join(ErrDividerBad, errors.New(\"added total differs from the dividend\"))\n	}", ["C15"], "silent"),
  ("x_polling_order_low_to_high", V2, "	for _, priority := range dsc.priorities {\n		if dsc.inputs[priority].Drained {\n			continue\n		}\n\n		if cap(dsc.inputs[priority].Channel) != 0 {", "	for i := len(dsc.priorities) - 1; i >= 0; i-- {\n		priority := dsc.priorities[i]\n		if dsc.inputs[priority].Drained {\n			continue\n		}\n\n		if cap(dsc.inputs[priority].Channel) != 0 {", ["C02", "C01"], "silent"),
 ]
 
